@@ -128,8 +128,7 @@ let handle line =
       Hashtbl.replace distinct ("S" ^ hid ^ line) ();
       let oracle_ok = (not failed) && exps = ress in
       let tr = if trace = "!" then [] else parse_trace trace in
-      (* precise class of the known defect F08b; everything else is "none" *)
-      let cls = if rev && hi = [] && int_of_string nreg > 1 then "reverse-scan/unbounded-upper-end" else "none" in
+      let cls = "none" in
       if not oracle_ok then propfail line ("scan<>expected\tclass=" ^ cls) exps;
       (* model replay against the recorded RPCs *)
       let (prob, mout, mpanic) = if trace = "!" then (None, [], false) else replay_scan t ts lo hi batch ko rev tr in
